@@ -320,8 +320,7 @@ def make_world(rng, wid, n, config=None, ids=None):
 
 # ids that END in a whitespace character other than " " (possible: the map is
 # split on " " only).  Model encoding: minus the label of the stripped id.
-WS_IDS = ["a\t", "utt1\t", "Q\xa0"]
-FINDING_WS = "C10-id-trailing-whitespace"
+WS_IDS = ["a\t", "utt1\t"]
 
 
 def label(world, utt):
@@ -647,6 +646,73 @@ def gen_histories(ctx, world, exhaustive_ws, kinds=(0, 1), n_random=0, doubles=F
     return hs
 
 
+def gen_map_cases(ctx, world, count):
+    """Token-level map files: valid lines, blank lines, one-token lines, duplicate ids, padded lines."""
+    r = ctx.rng
+    cases = []
+    for _ in range(count):
+        lines, used = [], []
+        order = list(range(len(world["ids"])))
+        r.shuffle(order)
+        for i in order[: r.randint(1, len(order))]:
+            u = r.random()
+            if u < 0.12:
+                lines.append(dict(kind="blank", text=r.choice(["", "  ", " "])))
+            if u > 0.9:
+                lines.append(dict(kind="single", id=world["ids"][i], text=world["ids"][i] + r.choice(["", " "])))
+            elif u > 0.8 and used:
+                j = r.choice(used)
+                lines.append(dict(kind="valid", id=world["ids"][j], sig=i, spaced=False))
+            else:
+                lines.append(dict(kind="valid", id=world["ids"][i], sig=i, spaced=r.random() < 0.4,
+                                  pad=r.choice(["", " ", "  "])))
+                used.append(i)
+        cases.append(lines)
+    return cases
+
+
+def run_map_case(server, world, lines, cid):
+    d = world_dir(world)
+    base = os.path.join(d, "m%d" % cid)
+    for suf in (".out", ".raw dir"):
+        shutil.rmtree(base + suf, ignore_errors=True)
+    if os.path.exists(base + ".manifest"):
+        os.unlink(base + ".manifest")
+    os.makedirs(base + ".raw dir")
+    toks = []
+    with open(base + ".map", "w") as f:
+        for ln in lines:
+            if ln["kind"] == "blank":
+                f.write(ln["text"] + "\n")
+                toks.append([])
+            elif ln["kind"] == "single":
+                f.write(ln["text"] + "\n")
+                toks.append([label(world, ln["id"])])
+            else:
+                src = world["_paths"][ln["sig"]]
+                if ln["spaced"]:  # a path with a space: two tokens, re-joined by the tool
+                    p = os.path.join(base + ".raw dir", os.path.basename(src))
+                    if not os.path.lexists(p):
+                        os.symlink(src, p)
+                    ptoks = [2000 + ln["sig"], 3000 + ln["sig"]]
+                else:
+                    p = src
+                    ptoks = [1000 + ln["sig"]]
+                f.write("%s%s %s%s\n" % (ln.get("pad", ""), ln["id"], p, ln.get("pad", "")))
+                toks.append([label(world, ln["id"])] + ptoks)
+    job = job_for(world, base, base + ".map", world["seed"], None, False, 0, 0.5, "m")
+    st = server.run(job)
+    obs = observe(world, base)
+    if st == "exit 0":
+        got = obs["manifest"]
+        present = sorted(label(world, u) for u in world["ids"] if fname(world, u) in obs["files"])
+        if present != sorted(got):
+            got = ["files", present, "manifest", got]
+    else:
+        got = None if (st == "exit 1" and not obs["files"] and not obs["lines"]) else [st, sorted(obs["files"]), obs["lines"]]
+    return toks, got, st
+
+
 def check_reference(ctx, world):
     """Oracles on the uninterrupted runs themselves."""
     import io
@@ -728,10 +794,11 @@ def run(ctx):
         add_world(3, "si_dither", exhaustive_ws=(3,), n_random=10)
         add_world(4, "stft_dither_deltas", exhaustive_ws=(0,), n_random=30)
         add_world(4, "raw_dither_preemph", exhaustive_ws=(1,), kinds=(1,), n_random=20)
-    # ids ending in whitespace that str.strip() removes (finding, see NOTES.md)
-    add_world(3, "raw_dither", ids=["a\t", "a", "b+c"], probe=FINDING_WS, exhaustive_ws=(0,), n_random=ctx.scale(4, 40))
+    # regression of the finding fixed by 7cfe6bc: ids that end in whitespace which
+    # str.strip() would remove ("a\t" vs "a"), see NOTES.md
+    add_world(3, "raw_dither", ids=["a\t", "a", "b+c"], exhaustive_ws=(0,), n_random=ctx.scale(4, 40))
     if ctx.thorough:
-        add_world(3, "stft_dither", ids=["utt1", "Q\xa0", "utt1\t"], probe=FINDING_WS, exhaustive_ws=(0, 2), n_random=40)
+        add_world(3, "stft_dither", ids=["utt1", "a\t", "utt1\t"], exhaustive_ws=(0, 2), n_random=40)
     ctx.log("%d worlds, %d histories, %d invocations" % (len(worlds), len(plan), sum(len(h) for _, h in plan)))
     nproc = 12
     servers = [Server() for _ in range(nproc)]
@@ -746,6 +813,7 @@ def run(ctx):
         return tl.s
 
     results = {}
+    mres, mcases = [], []
     try:
         with ThreadPoolExecutor(max_workers=nproc) as ex:
             def prep(w):
@@ -764,8 +832,12 @@ def run(ctx):
                     return None
                 return run_history(server(), w, h, i, fresh=i in fresh_ids)
             futs = [ex.submit(one, i) for i in range(len(plan))]
+            mw = worlds[3] if worlds[3]["wid"] in good_worlds else None
+            mcases = gen_map_cases(ctx, mw, ctx.scale(40, 400)) if mw else []
+            mfuts = [ex.submit(lambda j=j: run_map_case(server(), mw, mcases[j], j)) for j in range(len(mcases))]
             for i, f in enumerate(futs):
                 results[i] = f.result()
+            mres = [f.result() for f in mfuts]
     finally:
         for s in servers:
             s.close()
@@ -787,6 +859,24 @@ def run(ctx):
                     continue
                 for i, a in zip(idx[k:k + shard], ans):
                     model[i] = C.parse_coq(a)
+            # map parsing: parse_map vs. what the tool makes of the same token lines
+            if mres:
+                body = "".join("Eval vm_compute in (option_map (map fst) (parse_map [] %s)).\n" % C.zlist(t) for (t, _, _) in mres)
+                ans, log = C.coq_eval(ctx, "mapcases", body, REQ)
+                if ans is None or len(ans) != len(mres):
+                    ctx.fail("model evaluation failed in Coq", dict(correspondence="parse_map", log_tail=(log or "")[-1500:]), kind="tie", no_input=True)
+                else:
+                    for (t, got, st), a, lines in zip(mres, ans, mcases):
+                        v = C.parse_coq(a)
+                        exp = v[1] if isinstance(v, tuple) and v[0] == "Some" else None
+                        ctx.case(dict(map_lines=t), nontrivial=any(len(x) != 2 for x in t))
+                        ctx.count("map:%s" % ("rejected" if exp is None else "accepted"))
+                        if exp != got:
+                            ctx.fail("map parsing: model %r, tool %r (%s) on token lines %r" % (exp, got, st, t),
+                                     dict(map_lines=lines, tokens=t, model=exp, implementation=got,
+                                          correspondence="parse_map (coq/C10/Model.v) vs tool"), kind="correspondence")
+                        else:
+                            ctx.cov["traces_validated_against_impl"] += 1
     # ---- compare, record coverage
     nfail = 0
     nprobe = [0]
@@ -880,6 +970,8 @@ def replay(ctx, rp):
         s.close()
     for st in stages:
         print(json.dumps(st))
+    regenerate(ctx)
+    C.coq_make(["C10/Model.v", "gen/C10Tool.v"])
     ans, log = C.coq_eval(ctx, "replay", coq_history(w, h), REQ)
     print("model:", ans[0] if ans else log[-800:])
     for b in bad:
